@@ -461,8 +461,11 @@ class BlockDiagonalizer:
                 max_sqrt_P = cur_sqrt_P
 
         # Normalize the power of the AP with highest transmitted power to
-        # be equal to self.iPu
-        Ms_good = Ms_good * np.sqrt(float(self.iPu)) / max_sqrt_P
+        # be equal to self.iPu. Note that when no power is available at all
+        # (iPu equal to zero) Ms_good is already the zero matrix (and there
+        # is nothing to normalize).
+        if max_sqrt_P > 0:
+            Ms_good = Ms_good * np.sqrt(float(self.iPu)) / max_sqrt_P
 
         return Ms_good
 
